@@ -1,4 +1,5 @@
 import PoorProofs.Lemmas.Wsgi
+import PoorModel.Gen.Reasons
 /-
 C04 - aborts and exceptions become the documented HTTP answers.
 
@@ -132,5 +133,38 @@ theorem C04_after_independent (post : AfterProg) (ctor : Option Exc) (route : Ro
       | (t, some r) => afterAll app p post t r) ∧
     preAfter { app with nAfter := k } p ctor route = preAfter app p ctor route :=
   ⟨rfl, rfl⟩
+
+/-! ### non-vacuity: a concrete application and failing program meet the hypotheses -/
+
+/-- a small application and a failing user program, to show that the hypotheses of the theorems of C01,
+    C03 and C04 are satisfiable together: two before hooks, one after hook, user handlers for 404 and 500,
+    exception handlers for class 0 and for `Exception`; the endpoint aborts with 404, the 404 handler
+    answers with text, the first exception handler itself fails -/
+def demoApp : App :=
+  ⟨2, 1, [404, 500], [0, 9], Gen.Reasons.builtinPages, false, Gen.Reasons.table⟩
+
+def demoProg : Prog
+  | .endpoint => .raise (.http 404 false false)
+  | .status c => if c = 404 then .ret (.str [104, 105]) else .ret .junk
+  | .exch i => if i = 0 then .raise (.other 2) else .ret .none
+  | .before _ => .ret .none
+
+example : 404 ∈ demoApp.userStatus ∧ demoProg (.status 404) = .ret (.str [104, 105]) := ⟨by decide, rfl⟩
+
+/-- `abort_user_handler` applies to it, and its conclusion is what the model computes -/
+example : ∃ r, toResponse demoApp.reasons (.str [104, 105]) = .ok r ∧
+    ladder demoApp demoProg [] (.http 404 false false) = ([.status 404], some r) := by
+  refine ⟨_, rfl, ?_⟩
+  decide
+
+/-- `status_handler_garbage`: the 500 handler returns junk -/
+example : 500 ∈ demoApp.userStatus ∧ demoProg (.status 500) = .ret .junk := ⟨by decide, rfl⟩
+
+/-- `first_matching_handler` / `exception_handler_failure`: class 1 (derived from 0) finds handler 0, which fails -/
+example : findExcHandler demoApp (.other 1) = some 0 ∧ demoProg (.exch 0) = .raise (.other 2) := ⟨by decide, rfl⟩
+
+/-- `abort_not_implemented`: 418 has neither a user handler nor a built-in page -/
+example : 418 ∉ demoApp.userStatus ∧ 418 ∉ demoApp.builtinPages := ⟨by decide, by decide⟩
+
 
 end Poor.Props.C04
